@@ -30,7 +30,9 @@ def plan(tier, seed):
 
 def gen_case(rng, tier):
     from .. import mixgen
+    from ..apps import EXC_KINDS
     cfg = mixgen.draw_config(rng)
+    cfg['exc_kind'] = rng.choice(EXC_KINDS)
     if rng.random() < 0.15:
         # a lease-honouring client: its requests wait for the server's (small, then unlimited) leases
         cfg['lease'] = mixgen.draw_leases(rng)
@@ -47,6 +49,9 @@ def gen_case(rng, tier):
                 if s.get('up') and s['up'].get('terminal') == 'never':
                     s['up']['terminal'] = 'complete'
                 s.pop('late_actions', None)
+                if rng.random() < 0.15:
+                    # a subscriber whose terminal callback raises: the interaction has terminated all the same
+                    s['sub_raise_in'] = (rng.choice(['on_complete', 'on_error', 'on_next']),)
                 if rng.random() < 0.05:
                     # an initial request-n the API may refuse (or may not): whatever it does, no entry may remain
                     s['n0'] = rng.choice([0, -1, 2 ** 31, 2 ** 32 - 1])
